@@ -42,12 +42,13 @@ def parse(enc):
                     return ("list", cls, items)
         if c == "{":
             pos += 1
-            if enc[pos] == "=":
+            user = enc[pos] == "="
+            if user:
                 pos += 1
             ps = []
             if enc[pos] == "}":
                 pos += 1
-                return ("map", ps)
+                return ("map", ps, user)
             while True:
                 k = go()
                 pos += 1  # ':'
@@ -56,7 +57,7 @@ def parse(enc):
                 d = enc[pos]
                 pos += 1
                 if d == "}":
-                    return ("map", ps)
+                    return ("map", ps, user)
         st = pos
         while pos < len(enc) and enc[pos] not in ",:]})>":
             pos += 1
@@ -74,7 +75,7 @@ def unparse(t):
     if t[0] == "list":
         o = {"Seq": "[", "Tuple": "(", "Iterable": "<"}[t[1]]
         return o + ",".join(unparse(x) for x in t[2]) + CLOSE[o]
-    return "{" + ",".join(unparse(k) + ":" + unparse(v) for k, v in t[1]) + "}"
+    return ("{=" if len(t) > 2 and t[2] else "{") + ",".join(unparse(k) + ":" + unparse(v) for k, v in t[1]) + "}"
 
 
 def is_nan_atom(a):
@@ -126,6 +127,11 @@ def first_diff(a, b):
 REV = {"L": "G", "G": "L", "E": "E", "P": "P"}
 LK_ENTRIES = ["get_item", "subscript", "in", "iter-keys", "items", "dictsort", "get_attr", "dot", "get_path", "map-attr",
               "selectattr", "rejectattr", "groupby", "sort-attr", "unique-attr", "get_item_by_index", "context-var"]
+# which `Enumerator` variant is behind each container shape of the `rev` stream
+ENUM_OF = {"vec": "Seq", "tuple": "Iter|Seq|Empty", "iter": "Iter", "sized": "Iter", "once": "Iter", "deque": "Seq", "llist": "RevIter",
+           "bset": "RevIter", "hset": "Iter", "vmap": "RevKeyValueIter", "hmap": "KeyValueIter", "bstrmap": "RevKeyValueIter",
+           "hstrmap": "KeyValueIter", "omap": "Values", "oseq": "Seq", "strkeys": "Str", "empty": "Empty", "plain": "NonEnumerable",
+           "string": "str", "safestring": "str", "bytes": "bytes"}
 TPL_NAMES = ["lt", "eq", "in-list", "in-map", "lookup", "le", "gt", "in-map2", "lookup2"]
 
 
@@ -315,6 +321,14 @@ def check_mode(r, mode, exe):
                 for item in rf[2].split(" || "):
                     head = item.split(" ", 1)[0]           # filter:law
                     r.oracle_failure(case, f"[{feats}] {item[:300]}", "filter:" + head)
+        elif st == "rev":
+            rf = res.split(" ", 2)
+            r.count((st, mode, f[1], f[2]), len(f[2]) >= 2 and f[2] != "-", n=int(rf[1]))
+            r.hist["rev-shape"][f[1] + "(" + ENUM_OF.get(f[1], "?") + ")"] += 1
+            if rf[0] != "ok":
+                for item in rf[2].split(" || "):
+                    head = item.split(" ", 1)[0]           # filter:law
+                    r.oracle_failure(case, f"[{feats}] {f[1]} ({ENUM_OF.get(f[1], '?')}): {item[:300]}", "filter:" + head + ":" + ENUM_OF.get(f[1], "?"))
         elif st == "lk":
             backing, nent, kenc, penc = f[1], f[2], f[3], f[4]
             exp, flags = res.split()
